@@ -53,6 +53,15 @@ def gen_cases(rng, tier):
                                 {'t': 'finalizer', 'fail': {'at': 'callback', 'exc': excs[(j + 3) % len(excs)]}}):
                     j += 1
                     cases.append({'kind': 'fault', 'n': n, 'steps': [{'t': 'probe_row'}, failing, {'t': obs}], 'via': via})
+    # a flow consumed by another flow: as a (descriptor, resources iterator) pair given to load, or through sources();
+    # a failure anywhere in the inner flow, its very end included, must fail the outer run, and without a failure
+    # the inner flow must complete (its dumper commits)
+    for how in ('tuple', 'sources'):
+        for n in (3, 130):
+            for at in [None, 0, n - 1, 'end']:
+                for nres in (1, 2):
+                    cases.append({'kind': 'nested', 'how': how, 'n': n, 'at': at, 'nres': nres,
+                                  'via': ['results', 'process'][(n + nres) % 2]})
     for i in range(max(4, reps // 10)):
         cases.append({'kind': 'source_fault', 'n': rng.pick([5, 150]), 'at': rng.pick([0, 3, 99, 100, 120]),
                       'via': rng.pick(['results', 'process']), 'parallel': rng.chance(0.4)})
@@ -74,8 +83,55 @@ def _pf(row):
     row['v'] += 1
 
 
+class _EndFail(DF.DataStreamProcessor):
+    def process_resources(self, resources):
+        yield from resources
+        raise RuntimeError('inner flow failed at its end')
+
+
+def _row_fail(at):
+    def f(row):
+        if row['_i'] == at:
+            raise RuntimeError('inner flow failed at row %d' % at)
+    return f
+
+
+def run_nested(case, wd):
+    shutil.rmtree(wd, ignore_errors=True)
+    os.makedirs(wd)
+    inner = [[{'_i': i, 'v': i} for i in range(case['n'])] for _ in range(case['nres'])]
+    inner.append(DF.dump_to_path(os.path.join(wd, 'inner')))
+    if case['at'] == 'end':
+        inner.append(_EndFail())
+    elif case['at'] is not None:
+        inner.append(_row_fail(case['at']))
+    out = {'outcome': 'returned'}
+    try:
+        with quiet():
+            if case['how'] == 'tuple':
+                ds = Flow(*inner).datastream()
+                first = DF.load((ds.dp.descriptor, ds.res_iter))
+            else:
+                first = DF.sources(Flow(*inner))
+            fl = Flow(first, DF.dump_to_path(os.path.join(wd, 'outer')))
+            if case['via'] == 'results':
+                r = fl.results()
+                out['rows'] = [len(x) for x in r[0]]
+            else:
+                fl.process()
+    except Exception as e:
+        cause = getattr(e, 'cause', None)
+        out['outcome'] = ['raised', type(e).__name__, type(cause).__name__ + ':' + str(cause)[:60]]
+    out['inner_descriptor'] = os.path.exists(os.path.join(wd, 'inner', 'datapackage.json'))
+    out['outer_descriptor'] = os.path.exists(os.path.join(wd, 'outer', 'datapackage.json'))
+    shutil.rmtree(wd, ignore_errors=True)
+    return out
+
+
 def run_impl(case):
     wd = os.path.join(scratch(), 'c4_%s' % digest(case))
+    if case['kind'] == 'nested':
+        return run_nested(case, wd)
     if case['kind'] == 'source_fault':
         shutil.rmtree(wd, ignore_errors=True)
         os.makedirs(wd)
@@ -112,6 +168,25 @@ def fault_of(case):
 
 
 def oracle(case, out):
+    if case['kind'] == 'nested':
+        what = 'inner flow consumed through %s' % ('load((descriptor, resources))' if case['how'] == 'tuple' else 'sources()')
+        if case['at'] is None:
+            if out['outcome'] != 'returned':
+                return '%s: run failed without a fault: %r' % (what, out['outcome'])
+            if case['via'] == 'results' and out.get('rows') != [case['n']] * case['nres']:
+                return '%s: rows %r, expected %r' % (what, out.get('rows'), [case['n']] * case['nres'])
+            if not out['inner_descriptor']:
+                return '%s: the outer run returned but the inner flow never completed (its dump descriptor was not written)' % what
+            return None
+        if out['outcome'] == 'returned':
+            return '%s: a step of the inner flow raised at %r but %s() returned normally' % (what, case['at'], case['via'])
+        if out['outcome'][1] != 'ProcessorError':
+            return '%s: raised %s, not ProcessorError' % (what, out['outcome'][1])
+        if 'inner flow failed' not in out['outcome'][2]:
+            return '%s: the original exception is not the cause: %r' % (what, out['outcome'][2])
+        if out['outer_descriptor']:      # the inner dumper sits before the failing step: its commit is not constrained
+            return '%s: the dump descriptor positioned after the failing inner flow was committed' % what
+        return None
     if case['kind'] == 'source_fault':
         fails = case['at'] < case['n']
         if not fails:
@@ -120,8 +195,8 @@ def oracle(case, out):
             return 'the source raised at row %d but the run returned normally (%r rows)' % (case['at'], out.get('rows'))
         if out['outcome'][1] != 'ProcessorError':
             return 'raised %s, not ProcessorError' % out['outcome'][1]
-        if not any('source failed' in c for c in out['outcome'][2]):
-            return 'the original exception is not in the cause chain: %r' % (out['outcome'][2],)
+        if not out['outcome'][2] or not out['outcome'][2][0].startswith('RuntimeError:source failed'):
+            return 'ProcessorError.cause is not the exception the source raised: cause chain %r' % (out['outcome'][2],)
         if out['descriptor']:
             return 'a dump descriptor positioned after the failing source was committed'
         return None
